@@ -1,8 +1,7 @@
-(* modelrun <runner>: one input line -> one output line *)
+(* modelrun-<name>: one input line -> one output line; the driver registers itself as "main" *)
 let () =
-  if Array.length Sys.argv < 2 then (prerr_endline "usage: modelrun <runner>"; exit 2);
-  let f = try Hashtbl.find Common.runners Sys.argv.(1)
-    with Not_found -> (prerr_endline ("unknown runner " ^ Sys.argv.(1)); exit 2) in
+  let f = try Hashtbl.find Common.runners "main"
+    with Not_found -> (prerr_endline "no runner registered"; exit 2) in
   (try
     while true do
       let line = input_line stdin in
